@@ -15,8 +15,14 @@ class SimTimeout(BaseException):
 
 
 class StepClock(object):
-    def __init__(self, budget, prefixes=None):
+    """budget: line events. cpu_budget_s: optional second clock for native code the line clock cannot see (a regular
+    expression that backtracks for ever executes no Python line): process CPU time (ITIMER_VIRTUAL, not wall time, so
+    machine load does not matter), set two orders of magnitude above anything a terminating run needs."""
+
+    def __init__(self, budget, prefixes=None, cpu_budget_s=None):
         self.budget = budget
+        self.cpu_budget_s = cpu_budget_s
+        self.cpu_fired = False
         self.steps = 0
         self.prefixes = tuple(prefixes or (REPO + "/", "<generated", "ply/", "/ply/"))
         self._interesting = {}
@@ -44,11 +50,23 @@ class StepClock(object):
             return self._local
         return None
 
+    def _cpu(self, signum, frame):
+        self.cpu_fired = True
+        raise SimTimeout("cpu budget of %s s exceeded" % self.cpu_budget_s)
+
     def __enter__(self):
         self._old = sys.gettrace()
+        if self.cpu_budget_s:
+            import signal
+            self._oldsig = signal.signal(signal.SIGVTALRM, self._cpu)
+            signal.setitimer(signal.ITIMER_VIRTUAL, self.cpu_budget_s)
         sys.settrace(self._global)
         return self
 
     def __exit__(self, *a):
         sys.settrace(self._old)
+        if self.cpu_budget_s:
+            import signal
+            signal.setitimer(signal.ITIMER_VIRTUAL, 0)
+            signal.signal(signal.SIGVTALRM, self._oldsig)
         return False
